@@ -1,16 +1,68 @@
 /-
   Driver.lean — line protocol: `<model> <op> <args…>` in, one canonical line out.
   Imports `Model.*` only (no Mathlib), so it links as a `lean_exe`.
+  Every model exposes `IOState` (with defaults) and `step : IOState → List String → IOState × String`.
 -/
 import Model.Util
+import Model.Heap
+import Model.Arch
+import Model.Preserve
+import Model.Tournament
+import Model.HpMut
+import Model.Bellman
 import Model.Ring
+import Model.NStep
+import Model.SegTree
+import Model.VecEnv
+import Model.VecProto
+import Model.Action
+import Model.Obs
+import Model.Dist
+import Model.GAE
+import Model.C51
+import Model.Bandit
+import Model.Loop
 
 structure St where
+  heap : Heap.IOState := {}
+  arch : Arch.IOState := {}
+  preserve : Preserve.IOState := {}
+  tourn : Tournament.IOState := {}
+  hpmut : HpMut.IOState := {}
+  bellman : Bellman.IOState := {}
   ring : Ring.IOState := {}
+  nstep : NStep.IOState := {}
+  seg : SegTree.IOState := {}
+  vecenv : VecEnv.IOState := {}
+  vecproto : VecProto.IOState := {}
+  action : Action.IOState := {}
+  obs : Obs.IOState := {}
+  dist : Dist.IOState := {}
+  gae : GAE.IOState := {}
+  c51 : C51.IOState := {}
+  bandit : Bandit.IOState := {}
+  loop : Loop.IOState := {}
 
 def step (s : St) (line : String) : St × String :=
   match Util.words line with
+  | "heap" :: rest => let (r, o) := Heap.step s.heap rest; ({ s with heap := r }, o)
+  | "arch" :: rest => let (r, o) := Arch.step s.arch rest; ({ s with arch := r }, o)
+  | "preserve" :: rest => let (r, o) := Preserve.step s.preserve rest; ({ s with preserve := r }, o)
+  | "tourn" :: rest => let (r, o) := Tournament.step s.tourn rest; ({ s with tourn := r }, o)
+  | "hpmut" :: rest => let (r, o) := HpMut.step s.hpmut rest; ({ s with hpmut := r }, o)
+  | "bellman" :: rest => let (r, o) := Bellman.step s.bellman rest; ({ s with bellman := r }, o)
   | "ring" :: rest => let (r, o) := Ring.step s.ring rest; ({ s with ring := r }, o)
+  | "nstep" :: rest => let (r, o) := NStep.step s.nstep rest; ({ s with nstep := r }, o)
+  | "seg" :: rest => let (r, o) := SegTree.step s.seg rest; ({ s with seg := r }, o)
+  | "vecenv" :: rest => let (r, o) := VecEnv.step s.vecenv rest; ({ s with vecenv := r }, o)
+  | "vecproto" :: rest => let (r, o) := VecProto.step s.vecproto rest; ({ s with vecproto := r }, o)
+  | "action" :: rest => let (r, o) := Action.step s.action rest; ({ s with action := r }, o)
+  | "obs" :: rest => let (r, o) := Obs.step s.obs rest; ({ s with obs := r }, o)
+  | "dist" :: rest => let (r, o) := Dist.step s.dist rest; ({ s with dist := r }, o)
+  | "gae" :: rest => let (r, o) := GAE.step s.gae rest; ({ s with gae := r }, o)
+  | "c51" :: rest => let (r, o) := C51.step s.c51 rest; ({ s with c51 := r }, o)
+  | "bandit" :: rest => let (r, o) := Bandit.step s.bandit rest; ({ s with bandit := r }, o)
+  | "loop" :: rest => let (r, o) := Loop.step s.loop rest; ({ s with loop := r }, o)
   | ["reset"] => ({}, "ok")
   | _ => (s, "bad-op")
 
